@@ -67,6 +67,7 @@ def layouts_for(rng, n):
 
 LEVELS = ("-Q2", "-Q3", "-Q5")
 RUN_TIMEOUT = 120        # one compile+run; a hang must not stall the tier
+HANG_MIN_SIG = "c01|opt-level|compiler-hang|add-most-negative-constant"
 
 def split_route(route):
     """"interp-Q2" -> ("interp", ["-Q2"])"""
@@ -247,6 +248,14 @@ def run(ctx):
                     if not M.agrees(rs, o2)[0]:
                         prog, src, exp, got, note = small, rs[form], rs, o2, log[0]
             sig = "c01|%s|%s|%s" % (route, kind, top_feature(prog))
+            if kind == "runtime-timeout" and split_route(route)[1] and \
+                    (M.most_negative_operand(prog) or M.most_negative_operand(progs[i])):
+                # cause-aware: the compiler (not the program) does not finish: `a + K` / `a - K` with K folded
+                # to -2^63 sends the peep-hole pass into an endless rewrite at -Q2 and above (the default
+                # level compiles the same source at once); one signature for every level
+                kind = "compiler-hang"
+                sig = HANG_MIN_SIG
+                why += "; the source adds or subtracts a constant folded to -2^63 (peep-hole pass, of_peep.c peepPositive)"
             ctx.finding(sig, "route %s, %s rendering: %s (%s)" % (route, form, why, kind),
                         {"kind": kind, "route": route, "form": form, "source": src, "ast": prog,
                          "expected": {"stdout": exp["stdout"], "exit": exp["exit"]},
